@@ -216,7 +216,7 @@ def dual_path_value(draw) -> bytes:
 @st.composite
 def dual_block(draw, with_as4: bool = False) -> list[bytes]:
     """a dual-reading block: from the catalogue (so that reference decodes are shared between cases) or new"""
-    if draw(st.integers(0, 3)) != 0:
+    if draw(st.integers(0, 5)) != 0:
         return draw(st.sampled_from(CATALOGUE['dual-as4' if with_as4 else 'dual']))
     return draw(new_dual_block(with_as4))
 
@@ -259,7 +259,7 @@ def new_dual_block(draw, with_as4: bool = False) -> list[bytes]:
 @st.composite
 def base_update(draw, i: int) -> tuple[bytes, list[bytes], list[bytes], bytes, bytes]:
     """a refwire.strategies UPDATE well-formed for session i: from the catalogue or new"""
-    if draw(st.integers(0, 3)) != 0:
+    if draw(st.integers(0, 5)) != 0:
         return draw(st.sampled_from(CATALOGUE[f'update-{i}']))
     return draw(new_base_update(i))
 
@@ -332,8 +332,8 @@ def change_one_byte(draw, tlvs: list[bytes]) -> list[bytes]:
     n = draw(st.sampled_from(candidates))
     raw = bytearray(tlvs[n])
     head = 4 if raw[0] & 0x10 else 3
-    pos = draw(st.sampled_from([len(raw) - 1, head, draw(st.integers(head, len(raw) - 1))]))
-    raw[pos] ^= draw(st.sampled_from([1, 2]))
+    pos = draw(st.sampled_from([len(raw) - 1, len(raw) - 1, head, draw(st.integers(head, len(raw) - 1))]))
+    raw[pos] ^= draw(st.sampled_from([1, 1, 2]))
     return tlvs[:n] + [bytes(raw)] + tlvs[n + 1 :]
 
 
@@ -474,7 +474,7 @@ def new_open_body(draw) -> bytes:
 def m_opens(draw, msgs: list) -> list:
     out = []
     for _ in range(draw(st.integers(2, 3))):
-        body = draw(st.sampled_from(CATALOGUE['open'])) if draw(st.integers(0, 3)) != 0 else draw(new_open_body())
+        body = draw(st.sampled_from(CATALOGUE['open'])) if draw(st.integers(0, 5)) != 0 else draw(new_open_body())
         out.append([draw(sess_idx), OPEN, body.hex()])
     if draw(st.integers(0, 2)) == 0:
         out.append([draw(sess_idx), OPEN, out[0][2]])
@@ -519,7 +519,7 @@ def m_dual_nlri(draw, msgs: list) -> list:
 # A fork costs tens of milliseconds, and every distinct (session, message) needs one for its reference decode.  Most
 # ingredients therefore come from a fixed catalogue - the first examples Hypothesis gives for each ingredient strategy,
 # derandomized, so every process builds the same one - and the reference decodes are shared between cases; one draw in
-# four is new.  What varies freely from case to case is the sequence: who sends what after what.
+# six is new.  What varies freely from case to case is the sequence: who sends what after what.
 
 CATALOGUE: dict[str, list] = {}
 
